@@ -25,7 +25,7 @@ fn streams() -> Vec<Stream> {
     vec![
         Stream { name: "send-all", count: (6_000, 120_000), exhaustive: false, run: send_all },
         Stream { name: "send-all-large", count: (160, 1_500), exhaustive: false, run: send_all_large },
-        Stream { name: "send-all-squeezed", count: (3_000, 60_000), exhaustive: false, run: squeezed },
+        Stream { name: "send-all-squeezed", count: (1_500, 40_000), exhaustive: false, run: squeezed },
     ]
 }
 
